@@ -476,6 +476,15 @@ func (x *Exec) eval(env *specEnv, e ast.Expr, hint types.Type, cl *Clause) Val {
 			idx = x.widen64(st, idx)
 			return st.loadElem(env.snapshot(), b.Arr, app(sBV(64), nil, "bvadd", b.Off, idx), b.Elem)
 		case Term:
+			if b.Typ != nil {
+				if mt, isMap := under(b.Typ).(*types.Map); isMap {
+					if _, isStruct := mapStructFields(mt); isStruct {
+						k := x.evalTerm(env, n.Index, mt.Key(), cl)
+						sv, _ := x.mapLookupStruct(st, env.snapshot(), mt, b, k)
+						return sv
+					}
+				}
+			}
 			if strings.HasPrefix(b.Sort, "(Array ") {
 				is := arrayIdxSort(b.Sort)
 				var hintT types.Type
